@@ -241,6 +241,11 @@ class ModuleGen(object):
                 self.func('    ', 'm%d' % k, 'm%d' % k, False, forbid='code under the __main__ guard')
             elif kind == 'class':
                 self.klass(k)
+        if rng.random() < 0.25:
+            # PEP 562: a module-level __dir__ that shows only part of the namespace (the public names)
+            public = sorted(n for n in self.spec.inventory if '.' not in n and n != '__doc__')[:2]
+            out += ['__all__ = %r' % (public,), '', 'def __dir__():', '    return sorted(__all__)', '']
+            self.spec.features.add('module-dir-hook')
         self.spec.src = '\n'.join(head + out) + '\n'
         return self.spec
 
